@@ -32,10 +32,10 @@ static inline MessageRef BuildMsg(const MsgSpec & s)
    switch (s.shape) {
    case M_EMPTY: break;
    case M_INT: (void) m->AddInt32("i", s.p); break;
-   case M_STRA: (void) m->AddString("name", "hello world, hello world, hello"); (void) m->AddInt32("n", s.p); break;
-   case M_STRB: (void) m->AddString("other", "completely different text 0123456789"); (void) m->AddFloat("f", 1.5f + (float)s.p); break;
+   case M_STRA: (void) m->AddString("name", "hello hello hel"); (void) m->AddInt32("n", s.p); break;
+   case M_STRB: (void) m->AddString("other", "different 0123456789"); (void) m->AddFloat("f", 1.5f + (float)s.p); break;
    case M_NESTED: {
-      MessageRef sub = GetMessageFromPool(77); (void) sub()->AddString("name", "hello world, hello world, hello"); (void) sub()->AddInt8("b", (int8)s.p);
+      MessageRef sub = GetMessageFromPool(77); (void) sub()->AddString("name", "hello hello hel"); (void) sub()->AddInt8("b", (int8)s.p);
       (void) m->AddMessage("sub", sub); (void) m->AddString("arr", "one"); (void) m->AddString("arr", ""); (void) m->AddPoint("pt", Point(1.0f, -2.0f)); (void) m->AddInt64("big", ((int64)s.p) << 33); break; }
    case M_RAW: { std::string b((size_t)s.p, '\0'); for (int i = 0; i < s.p; i++) b[i] = (char)(i * 7 + (i >> 8) + (int)s.what); (void) m->AddData("d", B_RAW_TYPE, b.data(), (uint32)b.size()); break; }
    case M_NAN: (void) m->AddFloat("f", (float)NAN); (void) m->AddDouble("d", -0.0); (void) m->AddInt16("h", (int16)s.p); break;
@@ -108,7 +108,8 @@ public:
       const Message & m = *msg();
       flats.push_back(FlatOf(m)); whats.push_back(m.what);
       const String * s; for (uint32 i = 0; m.FindString(PR_NAME_TEXT_LINE, i, &s).IsOK(); i++) lines.push_back(std::string(s->Cstr(), s->Length()));
-      const void * d; uint32 n; for (uint32 i = 0; m.FindData(PR_NAME_DATA_CHUNKS, B_ANY_TYPE, i, &d, &n).IsOK(); i++) chunks.push_back(std::string((const char *)d, n));
+      // (Message::FindData does not find zero-length raw items, so the chunks are fetched as ByteBuffer references)
+      ConstByteBufferRef bb; for (uint32 i = 0; m.FindFlat(PR_NAME_DATA_CHUNKS, i, bb).IsOK(); i++) chunks.push_back(bb() ? std::string((const char *)bb()->GetBuffer(), bb()->GetNumBytes()) : std::string());
    }
 };
 static inline std::string JoinLen(const std::vector<std::string> & v, size_t from = 0, size_t to = (size_t)-1)
